@@ -11,38 +11,12 @@
   perpendicular), and leaves the other side alone.
 -/
 import EG.Lemmas.ThickBBoxSide
+import EG.Model.ThickSkips
 import Mathlib.Tactic.Linarith
 set_option linter.unusedSimpArgs false
 namespace EG
 namespace Thick
 open ParallelsIterator
-
-/-- The number of `Extra` perpendicular steps one call of `next_parallel(side)` skips (takes
-without returning a parallel): the recursion of `nextParallelFuel`, counting its tail calls. -/
-def skipsFuel : Nat → ParallelsIterator → LineSide → Nat
-  | 0, _, _ => 0
-  | fuel + 1, it, side =>
-    let decreaseError := match side with
-      | .left => it.flip
-      | .right => !it.flip
-    let (point, it) := match side with
-      | .left =>
-        let (p, b) := it.left.nextAll it.perpendicularParameters
-        (p, { it with left := b })
-      | .right =>
-        let (p, b) := it.right.previousAll it.perpendicularParameters
-        (p, { it with right := b })
-    match point with
-    | .normal _ => 0
-    | .extra _ =>
-      if decreaseError then
-        let (e, stepped) := it.parallelParameters.decreaseError (it.sideError side)
-        let it := it.setSideError side e
-        if stepped then 0 else skipsFuel fuel it side + 1
-      else
-        let (e, stepped) := it.parallelParameters.increaseError (it.sideError side)
-        let it := it.setSideError side e
-        if stepped then 0 else skipsFuel fuel it side + 1
 
 theorem skips_left_normal (fuel : Nat) (it : ParallelsIterator)
     (h : ¬ it.left.error > it.perpendicularParameters.errorThreshold) :
